@@ -151,6 +151,42 @@ type c08Shape struct {
 	l1   bool // must run in a fresh process (reads the command tree / help machinery)
 }
 
+// c08HostileConfig: a configuration file assembled from valid and invalid pieces: keys used as section
+// names, unknown sections and keys, keys before any section, duplicates, other letter case, sub-sections,
+// quotes/escapes/trailing comments, empty and over-long values, numbers out of range, bytes that are not
+// UTF-8, a byte order mark, CRLF, unbalanced brackets.
+func c08HostileConfig(r *rand.Rand) string {
+	pieces := []string{
+		"[Global]", "[global]", "[GLOBAL]", "[Resolver]", "[resolver]", "[ReporterConfig]", "[ParserConfig]", "[FilterConfig]", "[APIConfig]",
+		"[DbFileName]", "[LogFileName]", "[DateFormat]", "[Now]", "[MaxDepth]", "[Foo]", "[Global \"sub\"]", "[Global.sub]", "[", "]", "[Global", "Global]", "[]", "[ ]",
+		"DbFileName=food.yaml", "LogFileName=log.yaml", "DbFileName = \"food.yaml\"", "LogFileName=\"log.yaml", "DbFileName=", "DbFileName", "=food.yaml", "dbfilename=food.yaml", "DBFILENAME=food.yaml",
+		"DateFormat=2006/01/02", "DateFormat=\"2006/01/02\" ; comment", "DateFormat=2006/01/02 # comment", "DateFormat=", "DateFormat=%Y-%m-%d", "DateFormat=\\n\\t\\\"",
+		"Now=2021-02-01T00:00:00Z", "Now=yesterday", "Now=", "Now=2021-02-30T00:00:00Z", "Now=9999999999",
+		"MaxDepth=5", "MaxDepth=-1", "MaxDepth=0", "MaxDepth=99999999999999999999", "MaxDepth=9223372036854775807", "MaxDepth=1e3", "MaxDepth=0x7", "MaxDepth= 5 ", "MaxDepth=five", "MaxDepth",
+		"CommentChar=59", "CommentChar=300", "CommentChar=-1", "CommentChar=0", "CommentChar=35", "CommentChar=#",
+		"Color=true", "Color=yes", "Color=1", "Color=maybe", "Color", "CSV=true", "TotalsOnly=true", "totalsonly = true", "Totals=false", "ShortenStrings=on", "Unresolved=true", "SingleElement=x", "SingleFood=(", "ElementGroupByFood=true",
+		"InternalTemplateName=Default", "InternalTemplateName=", "UseOldRegReporter=true", "Theme=dark", "Unknown.Key=1",
+		"; comment", "# comment", "", "   ", "\t", "key with blanks = 1", "a=b=c", "\"quoted\"=1", "x = \"unterminated", "x = a\\", "x = \"a\\qb\"",
+		"DbFileName=" + strings.Repeat("n", 5000), "caf\xe9=1", "DbFileName=caf\xe9.yaml", "[caf\xe9]", "\x00", "Db\x00FileName=x",
+	}
+	var sb strings.Builder
+	if r.Intn(8) == 0 {
+		sb.WriteString("\xef\xbb\xbf")
+	}
+	eol := "\n"
+	if r.Intn(5) == 0 {
+		eol = "\r\n"
+	}
+	for k := 1 + r.Intn(8); k > 0; k-- {
+		sb.WriteString(pieces[r.Intn(len(pieces))] + eol)
+	}
+	out := sb.String()
+	if r.Intn(6) == 0 {
+		out = strings.TrimRight(out, "\r\n")
+	}
+	return out
+}
+
 func c08Shapes(r *rand.Rand, element, food string) []c08Shape {
 	s := func(a ...string) c08Shape { return c08Shape{args: a} }
 	l1 := func(a ...string) c08Shape { return c08Shape{args: a, l1: true} }
@@ -179,6 +215,7 @@ var c08Globals = [][]string{
 	{"-b", "2021/01/24"}, {"-e", "2021/01/24"}, {"-b", "today", "-e", "today"}, {"-b", "last7"}, {"-b", ""}, {"-e", ""}, {"-b", "garbage"}, {"-e", "next tuesday"}, {"-b", "2021/99/99"},
 	{"-b", "9999/12/31", "-e", "0001/01/01"},
 	{"--maxdepth", "-1"}, {"--maxdepth", "0"}, {"--maxdepth", "1"}, {"--maxdepth", "100000000"}, {"--maxdepth", "x"},
+	{"--maxdepth", "9223372036854775807"}, {"--maxdepth", "9223372036854775806"}, {"--maxdepth", "2147483648"}, {"--maxdepth", "-9223372036854775808"}, {"--maxdepth", "+7"}, {"--maxdepth", "0x10"}, {"--maxdepth", " 5"},
 	{"--date-format", "bogus"}, {"--date-format", ""}, {"--date-format", "2006-01-02"}, {"--date-format", "Monday"}, {"--date-format", "%Y"},
 	{"--today", "garbage"}, {"--today", ""}, {"--today", "2021/02/30"},
 	{"--no-database"}, {"--config", "nonexistent.conf"}, {"--config", "."}, {"--config", "food.yaml"}, {"--no-color"},
@@ -257,6 +294,14 @@ func runC08(c *core.Ctx) {
 			args = append(args, "--no-color")
 		}
 		args = append(args, c08Globals[r.Intn(len(c08Globals))]...)
+		if r.Intn(6) == 0 {
+			// a configuration file written by a confused user or a broken tool
+			conf := c08HostileConfig(r)
+			files["hostile.conf"] = conf
+			srv.Write(map[string]string{"hostile.conf": conf})
+			args = append(args, "--config", "hostile.conf")
+			c.Count("hostile_config_files", 1)
+		}
 		args = append(args, sh.args...)
 		name := "(no command)"
 		if len(sh.args) > 0 {
